@@ -105,4 +105,77 @@ CHECKS["C05"] = {
     "technique": "who-may-call + control-dependence + cursor typestate on ast; C++ class-body member scan of the templates; bash-subset parser",
 }
 
+CHECKS["C02"] = {
+    "text": "Decides the package-completeness and well-formedness clauses that are visible in the source: file list vs template directory "
+            "vs what each runner copies, executable bit, returned info, every template variable provided for its backend, no jinja "
+            "construct in plain files, no un-interpolated {braces} in emitted lines, declarations-before-statements in block.emit, per-use "
+            "unique_name for every declarable variable, sanitised column identifiers, casts on type mismatch, Fill at the mainline scope, "
+            "whole-word argument substitution, templates loaded per call from the executor's own directory.",
+    "note": "Not decided: that the C++ compiles against the experiment headers; that a given composition puts each use inside the declaring block "
+            "(runtime scope algebra). unique_name has no separator between base and index (_col1+3 vs _col+13): described in DESIGN, not checked.",
+    "technique": "ast + jinja2 parse-tree agreement checks; string-template analysis; regex AST of the substitution pattern",
+}
+CHECKS["C03"] = {
+    "text": "Decides that one list (name, variable typed by get_ttree_type(value)) feeds declaration, booking, filling and clearing unsliced; "
+            "that on every path the count check precedes the column zips; default/dict naming; a single tree name and a current-scope "
+            "descriptor; the booking/fill emitters of the three backends (template shapes); file-name agreement between the descriptor, the "
+            "three runners, the EventLoop stream and CMS_OUTPUT_FILE; tree_type honoured; conditionals typed double.",
+    "note": "Not decided: that the element type inferred for an arbitrary expression equals Python's. Trusted: TTree::Branch semantics.",
+    "technique": "def-use / whole-list-use checks and path enumeration on ast; template shapes; cross-artefact literal agreement",
+}
+CHECKS["C06"] = {
+    "text": "Decides placeholder agreement between get_collection and every backend coder's code lines (retrieval idiom per backend), the "
+            "built-in specification tables, call validation by a propositional truth-table check of the guards, backend-name three-way "
+            "agreement, README keys subset of allowed keys subset of keys read, de-duplicated forwarding of includes/libraries, per-use "
+            "miniAOD tokens, a fresh code value per call with stateless coders, and children-first plug-in discovery on a per-query copy.",
+    "note": "Trusted: framework semantics of retrieve/getByLabel/getByToken. Not decided: behaviour of the experiment framework on the request.",
+    "technique": "ast table extraction, control-dependence with propositional evaluation of guards, template shapes, README tables",
+}
+CHECKS["C08"] = {
+    "text": "Narrow by design: decides necessary conditions of the invariances - lambda parameters bound only inside their own stack_frame, by "
+            "position, body translated in the same frame; argument stack consulted before the namespace registry; tuple and list handlers "
+            "identical code (qastle has no tuple); plug-in rewriter children-first; metadata extracted first and method->call normalisation "
+            "before name-keyed passes.",
+    "note": "Not decided: the relational statement itself (two variants of every query give the same package); qastle and func_adl internals.",
+    "technique": "lexical-scope and path-order checks on ast; sibling AST comparison",
+}
+CHECKS["C09"] = {
+    "text": "Decides fail-closed structure: the representation gate, loud table lookups, every constant-index read of a list-valued AST field "
+            "and every zip dominated by a length test (path enumeration + interval reasoning on len tests, call-site guards for private helpers), "
+            "field coverage of every handled ast class against ast._fields, a frozen table of 20 explicit refusals, documented metadata keys "
+            "read, operand type validation for every arithmetic operator, history-independent plug-in table.",
+    "note": "Trusted: ast._fields of Python 3.12; the library dispatcher's summary. One known finding (raw-object columns accepted).",
+    "technique": "path enumeration with length-interval guards, field-coverage set comparison, control-dependence on ast",
+}
+CHECKS["C10"] = {
+    "text": "Decides that '.'/'->' are synthesised only by base_type_member_access (template scan with four frozen exceptions) from the "
+            "declared indirection, the double fallback with warning, the metadata->registry mapping argument by argument, element-typed "
+            "iteration/indexing, recursive qualified enum names, the loop shape of the indirection synthesis and of parse_type.",
+    "note": "Not decided: the depth arithmetic over all (pointer depth, deref_count) combinations as values - the C++ compiler is the judge.",
+    "technique": "string-template scan + def-use and shape checks on ast",
+}
+CHECKS["C11"] = {
+    "text": "Decides the substitution construction (one pass, function replacement, \\b(?:escaped names)\\b verified on the regex AST of a sample), "
+            "the isolation protocol of process_ast_node by cursor typestate, arity/call-style refusals before the node is rewritten, forwarding of "
+            "includes/libraries, whole-word self-consistency of every built-in specification, children-first discovery with callbacks bound to "
+            "their own specification (late-binding closure lint), the add_cpp_function key->field mapping, per-use typed result variables.",
+    "note": "Trusted: Python re semantics; C++ block scoping. Not decided: meaning of user-supplied C++.",
+    "technique": "regex-AST (re._parser) check of the substitution pattern, cursor typestate, ast table checks",
+}
+CHECKS["C13"] = {
+    "text": "Decides the operator tables against the language-level correspondence, expression templates, double-typed and int-promoted '/', "
+            "std::pow typed double, priority table and widest-type selection, accumulator widening before the update is emitted, exact-type "
+            "constant dispatch, casts on mismatch, conditionals typed double.",
+    "note": "Not decided: numerical values; C++ conversions beyond the finite typing table. One known finding (% emitted for floating operands).",
+    "technique": "ast table extraction vs oracle, template shapes, path-order checks",
+}
+CHECKS["C18"] = {
+    "text": "Decides, over all 60+ C++ text sinks of the package, that no Python text is pasted between C++ double quotes except through "
+            "cpp_string_literal (quote-parity analysis of string templates), that the escaper covers backslash, quote and control characters, "
+            "that floats reject non-finite values, negatives are parenthesised, bools/other kinds handled by exact type, substitution inserts "
+            "text literally, constants and collection calls are never memoised.",
+    "note": "Trusted: Python's str() of a finite float/int is a valid C++ literal of the same value. One known finding (ints typed 32-bit).",
+    "technique": "string-template (literal parts + holes) analysis with quote parity; control-dependence; regex AST",
+}
+
 NOT_APPLICABLE = {}
